@@ -46,7 +46,15 @@ Definition matches (got : spst) (alts : list spst) : option spst :=
 Definition fstep_run (c : cfg) (h : fstate) (st : fstep) : fstate :=
   match st with
   | FOp f o =>
-      let '(r, s1) := step_model c (with_fault (fs_s h) f) o in
+      (* Open adopts whatever complete unsynced batch sits in the tail file *)
+      let s_in := match o with
+                  | OReopen => {| ss_wal := ss_wal (fs_s h);
+                                  ss_env := {| e_acts := e_acts (ss_env (fs_s h));
+                                               e_disk := adopt_disk (e_disk (ss_env (fs_s h)));
+                                               e_fault := None; e_m := e_m (ss_env (fs_s h)) |} |}
+                  | _ => fs_s h
+                  end in
+      let '(r, s1) := step_model c (with_fault s_in f) o in
       let s' := with_fault s1 None in
       match o with
       | OReopen =>
